@@ -18,6 +18,7 @@ import SplinkVerif.Drv.Creators
 import SplinkVerif.Drv.Entry
 import SplinkVerif.Drv.OneToOne
 import SplinkVerif.Drv.OtoSql
+import SplinkVerif.Drv.ScoreSql
 import SplinkVerif.Drv.Tables
 import SplinkVerif.Drv.Levels
 /-! Line-protocol driver: one JSON object per input line, one JSON object per output line. -/
@@ -55,6 +56,7 @@ def dispatch (j : Json) : Except String Json := do
   | "sbl" => handleSBL j
   | "sbl_all" => handleSBLAll j
   | "oto_sql" => handleOtoSql j
+  | "score_sql" => handleScoreSql j
   | "tables_trace" => handleTablesTrace j
   | "levels_sat" => handleLevelsSat j
   | "levels_metric" => handleLevelsMetric j
